@@ -35,7 +35,8 @@ FaultStep(f) ==
     [] f = "parse_error" -> "Parse"
     [] f = "uncovered_sale" -> "Calculate"
     [] f = "missing_exemption" -> "Calculate"
-    [] f = "missing_rate" -> "Calculate"
+    [] f = "missing_rate" -> "Calculate"          \* a currency HMRC lists, in a month no table covers
+    [] f = "unlisted_currency" -> "Calculate"     \* a valid ISO 4217 code HMRC never lists (GIP, XAU): no month at all
     [] f = "bad_year" -> "Calculate"
     [] f = "default_pdf_exists" -> "CheckExists"
     [] f = "unwritable_output" -> "Write"
